@@ -17,7 +17,8 @@ VARIABLES slots, target, cycles, value
 vars == <<slots, target, cycles, value>>
 
 ScalarKinds == {"float", "float_tiny", "float_huge", "neg_zero", "int", "complex", "np_float64", "np_int64",
-                "np_complex128", "zero_d_array", "np_float32", "none_explicit"}
+                "np_complex128", "zero_d_array", "np_float32", "none_explicit",
+                "complex_neg", "np_complex_neg"}         \* negative imaginary part (text form "a-bj")
 SeqKinds == {"list", "tuple", "array1d", "list_of_np"}
 ObjKinds == {"nested_object", "prior", "derived_prior", "ufunc_prior", "complex_prior"}
 Kinds == ScalarKinds \cup SeqKinds \cup ObjKinds
@@ -26,6 +27,7 @@ Norm(k) == IF k \in {"tuple", "array1d", "list_of_np"} THEN "list"
            ELSE IF k \in {"np_float64", "zero_d_array", "np_float32"} THEN "float"
            ELSE IF k = "np_int64" THEN "int"
            ELSE IF k = "np_complex128" THEN "complex"
+           ELSE IF k = "np_complex_neg" THEN "complex_neg"
            ELSE k
 EqHolds(s) == \A i \in 1..NSlots : s[i] \notin {"tuple", "array1d"}     \* == compares containers by type
 
